@@ -59,6 +59,10 @@ def make_spec(st, idx, tier):
     else:
         spec = C.state_spec(st, tier, WORLD, PROFILE, FEED, min_units=30)
     world, profile = spec["world"], spec["profile"]
+    if profile["pi_method"] == "bootstrap" and chance(st.shadow, 0.6):
+        # more than one stratum column (a model setting whose order is part of the arguments)
+        cols = ["county_classification", "postal_code"]
+        profile["model_parameters"]["strata"] = cols if chance(st.shadow, 0.5) else cols[::-1]
     cut = float(st.sched.uniform(230, 480))
     ops = [o for o in spec["ops"] if o["t"] <= cut]
     rng = st.shadow
